@@ -245,7 +245,7 @@ def outerLoop {ω : Type} (c : Cfg α) : PState α ω → Nat → List (StepObs 
         else outerLoop c (advance c st s i e) s.nSel rest
     else finish st .normal
 
-/-- state of `_path` when the outer loop is entered: `alpha = clf.alpha; initial_alpha = clf.alpha; clf.set_params(alpha=0); clf.fit(X, y);
+/-- state of `_path` when the outer loop is entered: `alpha = clf.alpha; initial_alpha = clf.alpha; clf.set_params(alpha=0); try: clf.fit(X, y);
     best_gemini_score, _ = compute_val_score(...); best_weights = [w.copy() for w in weights]; the four empty lists` -/
 def initState {ω : Type} (alpha0 : α) (tr : Trace α ω) : PState α ω :=
   { alpha := alpha0, clfAlpha := 0, best := tr.initScore, bestW := tr.initWeights, curW := tr.initWeights,
@@ -255,11 +255,12 @@ def cfgOf (maxIter d : Nat) (a : PathArgs α) : Cfg α :=
   { maxIter := maxIter, d := d, mult := a.alphaMultiplier, minFeatures := a.minFeatures, keep := a.keepThreshold,
     esf := a.earlyStoppingFactor, maxPatience := a.maxPatience }
 
-/-- `clf.set_params(alpha=initial_alpha)` just before `return`: reached when the loop ends normally or by the NaN `break`
-    (the other exits are not returns of `_path`: an exception, or a trace that ended too early) -/
+/-- `try: … finally: clf.set_params(alpha=initial_alpha)`: executed on every way out of `_path` — the normal return, the
+    NaN `break`, and an exception (`unboundScore`).  The two remaining exit kinds are not exits of the Python function
+    (the observed trace ended too early) and are left as they are. -/
 def restoreAlpha {ω : Type} (alpha0 : α) (r : PathResult α ω) : PathResult α ω :=
   match r.exit with
-  | .normal | .nanAbort => { r with clfAlpha := alpha0 }
+  | .normal | .nanAbort | .unboundScore => { r with clfAlpha := alpha0 }
   | _ => r
 
 /-- `_path(clf, X, y, alpha_multiplier, min_features, keep_threshold, early_stopping_factor, max_patience)`;
